@@ -656,6 +656,35 @@ def search(res, tier, boost=False):
                     break
             if stop:
                 break
+    # 2b. DEEP segments (levels 9 .. level_cap): the descent's end-point comparison is a tolerance test in the code, so
+    # short segments far from the origin (large coordinate, tiny length) are where it can stop early or overshoot;
+    # first / last / second-to-last / middle / random positions of every piece, both orientations
+    n_deep = 0
+    for domain in ['unit', 'lshape', 'pi']:
+        cap = level_cap(domain)
+        levels = list(range(9, cap + 1)) if (thorough or boost) else sorted(set([9, 12, 15, cap - 7, cap - 5, cap - 3, cap - 1, cap]))
+        pcs = pieces(domain)
+        stop = False
+        for l in levels:
+            n = 2**l
+            ks = [0, 1, n // 2 - 1, n // 2, n - 2, n - 1, rng.randrange(n), rng.randrange(n)]
+            if not (thorough or boost):
+                ks = [ks[(l + j) % len(ks)] for j in range(3)] + [n - 1]
+            for j, k in enumerate(sorted(set(ks))):
+                pi_ = (l + j) % len(pcs) if not (thorough or boost) else rng.randrange(len(pcs))
+                p, q = segment(pcs[pi_], l, k, DOMAINS[domain]['scale'])
+                a, b = (p, q) if (l + j + k) % 2 == 0 else (q, p)
+                kind = KINDS[(k + l + j) % 3]
+                pm = PyQt(domain)
+                ctx = dict(domain=domain, piece=pi_, l=l, k=k, a=a, b=b, kind=kind, pre=[], deep=True)
+                res.count(('search-bdr-deep', domain, pi_, l, k), True)
+                n_deep += 1
+                if not check_targeting(res, pm, domain, a, b, kind, ctx, fuse=60):
+                    stop = True
+                    break
+            if stop:
+                break
+    res.bump('search_deep_segments', n_deep)
     # 3. targeting on pre-refined meshes whose boundary leaf at the segment is not finer than the segment
     n_pre = (200 if thorough else 40) * mult
     for h in range(n_pre):
